@@ -23,6 +23,8 @@ theorem ann_move (s s' : St) (h : AnnInv s)
   | zero => rfl
   | succ n ih => unfold mAddFuel; (repeat' split) <;> first | rfl | simp [*]
 @[simp] theorem mPid_mAdd (s : St) : mPid (mAdd s).mpc = none := by unfold mAdd; simp
+@[simp] theorem mPid_mAddF (s : St) : mPid (mAddF s).mpc = none := by
+  rcases mAddF_mpc s with ⟨i, _, h⟩ | ⟨_, h, _⟩ | ⟨_, h, _⟩ <;> rw [h] <;> rfl
 @[simp] theorem mPid_mJoinStart (s : St) : mPid (mJoinStart s).mpc = none := rfl
 @[simp] theorem mPid_mKillNext (s : St) : mPid (mKillNext s).mpc = none := by unfold mKillNext; split <;> rfl
 @[simp] theorem mPid_mAfterItem (s : St) : mPid (mAfterItem s).mpc = none := by
